@@ -61,7 +61,7 @@ def harness(hbin, mode, out, budget, **kw):
     a = [mode, "--out", out, "--budget", budget]
     for k, v in kw.items():
         a += ["--" + k, v]
-    vlib.run_harness(hbin, a, timeout=1500)
+    vlib.run_harness(hbin, a, timeout=5000)
     return out
 
 
@@ -70,7 +70,7 @@ def run(rep, tier, args):
     rep.assumptions += [
         "coarse MC: 2 replicas x 3 nodes x heights<=2, epochs<=3, <=2 blocks per replica, <=1 crash per replica, "
         "<=1 abandoned write in flight; two-replica graphs are explored to a BFS depth bound (quick 11/12 quorum "
-        "operations, thorough 14/15), the single-replica graph completely",
+        "operations, thorough 13/14), the single-replica graph completely",
         "fine per-RPC interleavings are sampled by -simulate, not exhausted",
         "lease expiry, reply loss, late execution and node restarts are scenario events of the fake Redis nodes "
         "(virtual clock); real Redis semantics of SET NX PX / INCR / XADD / XREVRANGE are assumed as documented; "
@@ -111,23 +111,23 @@ def run(rep, tier, args):
                                         timeout=3000, extra=["-dumpTrace", "json", dump]), cfg)
         return label, (1 if "b1" in cfg else 0), r, dump
 
-    fine_jobs = [("fine", "MC_LeaderLease_fine.cfg", 80 if quick else 4000)]
+    fine_jobs = [("fine", "MC_LeaderLease_fine.cfg", 80 if quick else 1500)]
     if not quick:
-        fine_jobs += [("fine-b1", "MC_LeaderLease_fine_b1.cfg", 2000), ("fine-n5b1", "MC_LeaderLease_fine_n5b1.cfg", 1000)]
+        fine_jobs += [("fine-b1", "MC_LeaderLease_fine_b1.cfg", 800), ("fine-n5b1", "MC_LeaderLease_fine_n5b1.cfg", 400)]
 
     def walks_job(job):
         label, cfg, num = job
         return label, sim_walks(cfg, num, "C25-sim-" + label)
 
-    walk_jobs = [("fine", "Sim_LeaderLease_fine.cfg", 14 if quick else 150), ("coarse", "Sim_LeaderLease_coarse.cfg", 14 if quick else 150),
-                 ("coarse-b1", "Sim_LeaderLease_coarse_b1.cfg", 8 if quick else 80)]
+    walk_jobs = [("fine", "Sim_LeaderLease_fine.cfg", 14 if quick else 100), ("coarse", "Sim_LeaderLease_coarse.cfg", 14 if quick else 100),
+                 ("coarse-b1", "Sim_LeaderLease_coarse_b1.cfg", 8 if quick else 50)]
 
     with ThreadPoolExecutor(max_workers=4) as ex:
         f_mc = [ex.submit(mc, j) for j in mc_jobs]
         f_fine = [ex.submit(fine, j) for j in fine_jobs]
         f_walks = [ex.submit(walks_job, j) for j in walk_jobs]
         # meanwhile: seeded chaos on the real adapter (I -> S)
-        n0, n1 = (60, 30) if quick else (1500, 600)
+        n0, n1 = (60, 30) if quick else (800, 300)
         t_r0 = harness(hbin, "random", os.path.join(wd, "random-b0.ndjson"), 0, walks=n0, len=30)
         t_r1 = harness(hbin, "random", os.path.join(wd, "random-b1.ndjson"), 1, walks=n1, len=30)
         mc_res = [f.result() for f in f_mc] + [f.result() for f in f_fine]
